@@ -75,6 +75,8 @@ pub struct BlobStore {
     gc: Arc<GarbageCollector>,
     gc_handle: Option<JoinHandle<()>>,
     config: BlobConfig,
+    /// Shared by writers, deletes and the collector of this store.
+    chunk_lock: Arc<gc::ChunkLock>,
 }
 
 impl BlobStore {
@@ -88,13 +90,19 @@ impl BlobStore {
         config.validate()?;
 
         let gc_config = GcConfig::from(&config);
-        let gc = Arc::new(GarbageCollector::new(store.clone(), gc_config));
+        let chunk_lock = Arc::new(gc::ChunkLock::default());
+        let gc = Arc::new(GarbageCollector::with_chunk_lock(
+            store.clone(),
+            gc_config,
+            Arc::clone(&chunk_lock),
+        ));
 
         Ok(Self {
             store,
             gc,
             gc_handle: None,
             config,
+            chunk_lock,
         })
     }
 
@@ -178,7 +186,7 @@ impl BlobStore {
     /// Returns an error if the artifact is not found or deletion fails.
     #[allow(clippy::unused_async)]
     pub async fn delete(&self, artifact_id: &str) -> Result<()> {
-        integrity::delete_artifact(&self.store, artifact_id)
+        integrity::delete_artifact_locked(&self.store, artifact_id, &self.chunk_lock)
     }
 
     /// Check if an artifact exists.
@@ -219,7 +227,8 @@ impl BlobStore {
             filename.to_string(),
             options,
             &self.config.default_content_type,
-        ))
+        )
+        .with_chunk_lock(Arc::clone(&self.chunk_lock)))
     }
 
     /// Create a reader for streaming download.
